@@ -237,6 +237,16 @@ def _fold_lookup(node):
         return ast.copy_location(ast.Attribute(
             value=node.args[0], attr=node.args[1].value, ctx=ast.Load()),
             node)
+    if isinstance(node, ast.Call) and en is not None and en._stack and \
+            len(node.args) == 1 and not node.keywords and isinstance(
+                node.func, (ast.Name, ast.Attribute)):
+        # a helper that only re-spells its argument character by character
+        try:
+            g = en.prog.callee_of(en._stack[-1], node)
+        except Exception:
+            g = None
+        if g is not None and en.prog.is_respelling(g):
+            return node.args[0]
     if isinstance(node, ast.Attribute) and node.attr == 'dest' and \
             isinstance(node.ctx, ast.Load) and en is not None and isinstance(
                 node.value, (ast.Name, ast.Attribute)):
